@@ -159,17 +159,19 @@ func (e *Executor) RunTask(ctx context.Context, call *Call) error {
 			return err
 		}
 
+		if err := ctx.Err(); err != nil {
+			return err
+		}
+
+		// Preconditions are guards, not fingerprints: they are enforced
+		// even when the task is forced to run
+		preCondMet, err := e.areTaskPreconditionsMet(ctx, t)
+		if err != nil {
+			return err
+		}
+
 		skipFingerprinting := e.ForceAll || (!call.Indirect && e.Force)
 		if !skipFingerprinting {
-			if err := ctx.Err(); err != nil {
-				return err
-			}
-
-			preCondMet, err := e.areTaskPreconditionsMet(ctx, t)
-			if err != nil {
-				return err
-			}
-
 			// Get the fingerprinting method to use
 			method := e.Taskfile.Method
 			if t.Method != "" {
